@@ -314,6 +314,12 @@ func runC20(c *core.Ctx) error {
 	}
 	checkMainExit(c, r4, mainFn, runFn)
 	checkFeatureSetValidated(c, prog)
+	r6 := c.NewRule("R20.6", "S1", "spec validation confines component keys to characters that cannot break the written code (a failure there would come after cleaning)", 1)
+	if pprog, err := c.Program("./openapi/parser"); err != nil {
+		r6.Undecided("load:openapi/parser", "-", err.Error())
+	} else {
+		checkComponentKeyAlphabet(c, r6, pprog)
+	}
 	checkWrapOfNilError(c, r4, prog, pkgCmd, pkgGen, pkgRoot, pkgParser, pkgJS, pkgIR)
 	return nil
 }
